@@ -27,6 +27,10 @@ def cli_diff(ctx, cases, project=None, tag="", inproc=False, keyf=None, pipe_fra
     Returns the implementation results.  pipe_frac: that fraction of the real-binary cases gets its log and / or its book through a named pipe
     (readable, no size, not a regular file, delivered in pieces) - the model sees the same bytes."""
     if not cases: return []
+    # a third of the cases in another spelling of the same command line (the model parses the vector: Model/Argv.v)
+    for c in cases:
+        if c.get("raw_argv") is None and "spell" not in c and ctx.rng.random() < 0.3:
+            c["spell"] = ctx.rng.randrange(1 << 30); ctx.tally("command_line_spelling", "varied")
     if pipe_frac and not inproc:
         for c in cases:
             if c.get("fifo") or c.get("sink") is not None or c["cmd"] not in PIPE_CMDS or ctx.rng.random() >= pipe_frac: continue
